@@ -32,7 +32,7 @@ VARTABLES = {
 }
 ITEM_KINDS = ["VL", "WC", "QE"]
 LISTS = [("none", None), ("include", ["P1"]), ("exclude", ["P1"])]
-BOUNDS = {"quick": dict(parts=3, re_parts=2, items=2), "thorough": dict(parts=4, re_parts=3, items=3)}
+BOUNDS = {"quick": dict(parts=3, re_parts=2, items=2), "thorough": dict(parts=4, re_parts=3, items="2 (3 for values of <= 2 parts)")}
 K = V.K()
 
 
@@ -41,11 +41,16 @@ def bounds(tier):
                 lists=[l[0] for l in LISTS])
 
 
+NPARTS = {}
+
+
 def values(alpha, maxparts):
     for n in range(1, maxparts + 1):
         for t in itertools.product(alpha, repeat=n):
             if sum(1 for p in t if re.fullmatch(r"%P\d%", p)) <= 3:
-                yield "".join(t)
+                v = "".join(t)
+                NPARTS.setdefault(v, n)
+                yield v
 
 
 def pipelines(maxitems):
@@ -327,7 +332,7 @@ def judge(res, pos, mod, value, items, vt):
 
 def space(tier):
     b = BOUNDS[tier]
-    pls = list(pipelines(b["items"]))
+    pls = list(pipelines(2 if tier == "quick" else 3))
     for pos, alpha, n in (("str", PARTS, b["parts"]), ("kw", PARTS, b["parts"]), ("re", RE_PARTS, b["re_parts"])):
         for v in values(alpha, n):
             for mod in MODS:
@@ -352,6 +357,8 @@ def run_shard(shard, tier, seed):
         for items, vt in pls:
             if not has_ph and len(items) > 1:
                 continue  # values without placeholders: single items suffice (items are no-ops on them)
+            if len(items) >= 3 and NPARTS.get(v, 9) > 2:
+                continue  # pipelines of three items only with values of <= 2 parts (the full product is ~1e8 conversions)
             judge(res, pos, mod, v, items, vt)
         if len(res["samples"]) < 2 and has_ph:
             res["samples"].append({"pos": pos, "mod": mod, "value": v, "pipelines": len(pls)})
